@@ -109,10 +109,15 @@ class LibRaised(Exception):
         self.bucket = 'raise:%s@%s' % (type(exc).__name__, site)
 
 
+LIB_RETURNS = [0]       # how many library calls have returned a value (used to classify harness-side shape errors)
+
+
 def lib(fn, *a, **k):
     """Call into the library. Returns (True, value) or (False, LibRaised)."""
     try:
-        return True, fn(*a, **k)
+        v = fn(*a, **k)
+        LIB_RETURNS[0] += 1
+        return True, v
     except Exception as e:      # noqa: the library may raise anything
         return False, LibRaised(e)
 
@@ -120,7 +125,9 @@ def lib(fn, *a, **k):
 def libcall(fn, *a, **k):
     """Call into the library where raising is itself the violation."""
     try:
-        return fn(*a, **k)
+        v = fn(*a, **k)
+        LIB_RETURNS[0] += 1
+        return v
     except LibRaised:
         raise
     except Exception as e:
@@ -329,6 +336,7 @@ class Recorder:
 
 def execute(prop, case, rec):
     """run_case with exception classification. Never raises."""
+    returns0 = LIB_RETURNS[0]
     try:
         res = prop.run_case(case)
     except LibRaised as e:
@@ -347,6 +355,16 @@ def execute(prop, case, rec):
             res.fail('raise:%s@%s:%s' % (type(e).__name__,
                                          os.path.basename(f.filename), f.name),
                      'library raised %s: %s' % (type(e).__name__, str(e)[:300]))
+        elif any(('site-packages/pywt' in f.filename or 'site-packages/dtcwt' in f.filename) for f in tb):
+            # the reference itself rejects this input (the library did not): oracle undefined, case discarded
+            res.skip('oracle undefined: %s: %s' % (type(e).__name__, str(e)[:200]))
+            res.label('oracle_raised')
+        elif LIB_RETURNS[0] > returns0 and isinstance(e, (ValueError, IndexError, RuntimeError, TypeError, AssertionError)) \
+                and any(w in str(e).lower() for w in ('shape', 'size', 'reshape', 'broadcast', 'dimension', 'concatenat',
+                                                    'index', 'unpack', 'split')):
+            # the harness could not even lay out what the library returned against the expected structure
+            res.fail('malformed_output:%s' % type(e).__name__,
+                     'the library returned values of an unexpected structure: %s: %s' % (type(e).__name__, str(e)[:300]))
         else:
             rec.harness_errors.append({
                 'case': case, 'error': '%s: %s' % (type(e).__name__, e),
